@@ -62,7 +62,9 @@ def loader_traces(events):
     by = {}
     for e in events:
         if 'loader' in e:
-            by.setdefault(e['loader'], []).append({'op': e['op'], 'res': e['res'], 'n': e['n'], 'twin': True, 'fresh': True})
+            # (the source hook records the number of statements only: the content is a placeholder per statement)
+            by.setdefault(e['loader'], []).append({'op': e['op'], 'res': e['res'], 'n': e['n'], 'c': ['-'] * e['n'], 'twin': True,
+                                                    'fresh': True})
     return list(by.values())
 
 
